@@ -199,6 +199,109 @@ fn check_desc(rep: &Report, c: &DescCase, thorough: bool, cen: &mut Census) {
     }
 }
 
+/// Key-source relation family: the documented rule "an asset key source (fingerprint, path) signs
+/// for a descriptor key iff the fingerprints agree and the key's full derivation path is the
+/// source path or the source path extended by exactly one step", decided for every pair of
+/// (descriptor key form, source) below; a plan must exist exactly when the rule says the key signs.
+fn key_source_family(rep: &Report) -> Census {
+    use bitcoin::bip32::{ChildNumber, DerivationPath, Fingerprint, Xpriv, Xpub};
+    use miniscript::plan::Assets;
+    use miniscript::{DefiniteDescriptorKey, Descriptor};
+    use std::str::FromStr;
+    let mut cen = Census::new();
+    let xprv = Xpriv::new_master(bitcoin::Network::Bitcoin, &[0x5a; 32]).unwrap();
+    let xpub = Xpub::from_priv(secp256k1::SECP256K1, &xprv);
+    let xfp = xpub.fingerprint();
+    let single = crate::keys::key("K1");
+    let single_hex = hex(&single.compressed());
+    let single_own_fp = {
+        use bitcoin::hashes::Hash;
+        let h = bitcoin::hashes::hash160::Hash::hash(&single.compressed()).to_byte_array();
+        Fingerprint::from([h[0], h[1], h[2], h[3]])
+    };
+    let fp_a = Fingerprint::from([0xaa, 0xbb, 0xcc, 0xdd]);
+    let other = Fingerprint::from([1, 2, 3, 4]);
+    // (key text, master fingerprint, full path)
+    let forms: Vec<(String, Fingerprint, Vec<u32>)> = vec![
+        (format!("[{}/1/2]{}/3/4", fp_a, xpub), fp_a, vec![1, 2, 3, 4]),
+        (format!("[{}/1]{}/3", fp_a, xpub), fp_a, vec![1, 3]),
+        (format!("[{}/7]{}", fp_a, single_hex), fp_a, vec![7]),
+        (format!("[{}]{}", fp_a, single_hex), fp_a, vec![]),
+        (format!("{}/3/4", xpub), xfp, vec![3, 4]),
+        (format!("{}", xpub), xfp, vec![]),
+        (single_hex.clone(), single_own_fp, vec![]),
+    ];
+    let internal = hex(&crate::keys::key("KI").x32());
+    for (ktext, kfp, full) in &forms {
+        // candidate source paths: every prefix, one step longer, sibling of the last step, sibling of the parent
+        let mut paths: Vec<Vec<u32>> = (0..=full.len()).map(|l| full[..l].to_vec()).collect();
+        let mut longer = full.clone();
+        longer.push(9);
+        paths.push(longer);
+        if !full.is_empty() {
+            let mut sib = full.clone();
+            *sib.last_mut().unwrap() = 9;
+            paths.push(sib);
+        }
+        if full.len() >= 2 {
+            let mut uncle = full[..full.len() - 1].to_vec();
+            *uncle.last_mut().unwrap() = 9;
+            paths.push(uncle);
+        }
+        paths.sort();
+        paths.dedup();
+        let descs: Vec<(&str, String, bool)> = vec![
+            ("wpkh", format!("wpkh({})", ktext), false),
+            ("pkh", format!("pkh({})", ktext), false),
+            ("wsh-pk", format!("wsh(pk({}))", ktext), false),
+            ("sh-pk", format!("sh(pk({}))", ktext), false),
+            ("wsh-multi", format!("wsh(multi(1,{}))", ktext), false),
+            ("tr-key", format!("tr({})", ktext), true),
+            ("tr-leaf", format!("tr({},pk({}))", internal, ktext), true),
+            ("tr-leaf-pkh", format!("tr({},pkh({}))", internal, ktext), true),
+        ];
+        for (dname, dtext, _tap) in &descs {
+            let desc = match Descriptor::<DefiniteDescriptorKey>::from_str(dtext) {
+                Ok(d) => d,
+                Err(_) => {
+                    bump(&mut cen, "keysource_descriptor_refused");
+                    continue;
+                }
+            };
+            for sfp in [*kfp, other] {
+                for sp in &paths {
+                    let path = DerivationPath::from(sp.iter().map(|i| ChildNumber::from_normal_idx(*i).unwrap()).collect::<Vec<_>>());
+                    let expect = sfp == *kfp && (sp == full || (!full.is_empty() && sp[..] == full[..full.len() - 1]));
+                    let mut assets = Assets::new();
+                    assets.keys.insert(((sfp, path.clone()), miniscript::plan::CanSign::default()));
+                    for mall in [false, true] {
+                        bump(&mut cen, "keysource_evaluations");
+                        let got = guard(|| if mall { desc.clone().plan_mall(&assets).is_ok() } else { desc.clone().plan(&assets).is_ok() });
+                        match got {
+                            Ok(g) if g == expect => {
+                                bump(&mut cen, if g { "keysource_plan_as_expected" } else { "keysource_no_plan_as_expected" });
+                            }
+                            Ok(g) => rep.violation(Violation {
+                                key: format!("C17|keysource|{}|{}|{}|{}|{}", dname, ktext, sfp, path, mall),
+                                class: format!("key-source-rule-{}-{}", if g { "plan-without-signing-key" } else { "no-plan-with-signing-key" }, dname),
+                                what: format!("asset key source ({}, {}) {} sign for key {} (full path {:?}) but plan{}() {}", sfp, path, if expect { "can" } else { "cannot" }, ktext, full, if mall { "_mall" } else { "" }, if g { "succeeds" } else { "fails" }),
+                                case: json!({"descriptor": dtext, "source_fingerprint": sfp.to_string(), "source_path": path.to_string(), "mall": mall}),
+                            }),
+                            Err(pn) => rep.violation(Violation {
+                                key: format!("C17|keysource-panic|{}|{}", dname, panic_site(&pn)),
+                                class: format!("planner-panic@{}", panic_site(&pn)),
+                                what: pn,
+                                case: json!({"descriptor": dtext, "source_fingerprint": sfp.to_string(), "source_path": path.to_string()}),
+                            }),
+                        }
+                    }
+                }
+            }
+        }
+    }
+    cen
+}
+
 pub fn run(tier: Tier) -> i32 {
     let rep = Report::new("C17", tier);
     match crate::kat::run_kats() {
@@ -229,6 +332,7 @@ pub fn run(tier: Tier) -> i32 {
             a
         });
     rep.merge_counts(&cen);
+    rep.merge_counts(&key_source_family(&rep));
     if let Some(d) = models.iter().rev().find(|d| matches!(d, D::Tr(_, l) if l.len() == 2)) {
         rep.sample(json!({"descriptor_model": d.sexpr(), "cansign": ["default", "no-key-spend", "ecdsa-only", "leaf-restricted"]}));
     }
@@ -241,7 +345,7 @@ pub fn run(tier: Tier) -> i32 {
         rep.get("plan_equals_direct") + rep.get("reported_locks_sufficient") + rep.get("weaker_lock_rejected"),
         rep.get("evaluations"),
         rep.get("weaker_lock_rejected") + rep.get("both_succeed").min(rep.get("both_refuse")),
-        "every descriptor of the C01 enumeration x all worlds x CanSign variants x both plan modes: plan exists iff the equivalent satisfier succeeds; completing the plan equals the direct satisfaction; the spend validates on the RSM with exactly the reported locks and is rejected with each weaker lock (value-1, removed, other unit, final sequence). non-trivial = weaker-lock transactions rejected + min(both succeed, both refuse)",
+        "every descriptor of the C01 enumeration x all worlds x CanSign variants x both plan modes: plan exists iff the equivalent satisfier succeeds; completing the plan equals the direct satisfaction; the spend validates on the RSM with exactly the reported locks and is rejected with each weaker lock (value-1, removed, other unit, final sequence); key-source family: 7 key forms (xpub / single key, with and without origin and derivation steps) x 8 output shapes x every related source path (each prefix, one step longer, sibling, uncle) x 2 fingerprints: a plan exists iff the documented direct-child rule says the source signs. non-trivial = weaker-lock transactions rejected + min(both succeed, both refuse)",
         true,
     )
 }
